@@ -237,9 +237,13 @@ func (s *Sched) HoldsToken() (holder bool, isTask bool) {
 }
 
 // AddHazard records a determinism hazard observed by the harness.
-func (s *Sched) AddHazard() {
+func (s *Sched) AddHazard(name string) {
 	s.mu.Lock()
 	s.Hazards++
+	if s.HazardNames == nil {
+		s.HazardNames = map[string]int{}
+	}
+	s.HazardNames[name]++
 	s.mu.Unlock()
 }
 
